@@ -232,14 +232,19 @@ def _check_dicke(n):
     import math
     import numpy as np
     from orquestra.quantum.wavefunction import Wavefunction
+    idx = np.arange(2 ** n)
+    weight = np.zeros(2 ** n, dtype=int)
+    for b in range(n):
+        weight += (idx >> b) & 1
     for k in range(0, n + 1):
         w = Wavefunction.dicke_state(n, k)
-        p = w.get_probabilities()
-        support = [i for i in range(2 ** n) if p[i] > 0]
-        want = [i for i in range(2 ** n) if bin(i).count("1") == k]
-        if support != want:
-            return False, f"dicke_state({n},{k}) support {support[:8]}... expected the {len(want)} states of weight {k}"
-        if not np.allclose(p[want], 1 / math.comb(n, k)):
+        p = np.asarray(w.get_probabilities())
+        support = np.nonzero(p > 0)[0]
+        want = np.nonzero(weight == k)[0]
+        if len(support) != len(want) or (support != want).any():
+            missing = sorted(set(want.tolist()) - set(support.tolist()))[:4]
+            return False, f"dicke_state({n},{k}) support has {len(support)} states, expected the {len(want)} states of weight {k} (missing e.g. {missing})"
+        if not np.allclose(p[want], 1 / math.comb(n, k), rtol=1e-9, atol=0):
             return False, f"dicke_state({n},{k}) probabilities are not all 1/C(n,k)"
     for bad in ((n, n + 1), (n, -1), (0, 0), (-1, 0)):
         try:
@@ -266,6 +271,29 @@ def _check_flip(n):
     w = Wavefunction(v)
     if not np.array_equal(flip_wavefunction(flip_wavefunction(w)).amplitudes, w.amplitudes):
         return False, "reversing qubit order twice is not the identity"
+    if n == 2:
+        # save / load of states whose imaginary parts cancel, are all zero, or carry everything
+        from orquestra.quantum.utils import convert_array_to_dict, convert_dict_to_array
+        h = 0.5
+        for amps in ([h, h * 1j, -h * 1j, h], [1j / np.sqrt(2), -1j / np.sqrt(2), 0, 0], [h * 1j, h * 1j, -h * 1j, -h * 1j], [1, 0, 0, 0], [0, 0, 0, 1j], [h, h, h, -h],
+                     [np.sqrt(0.5), 0, 0, np.sqrt(0.5) * 1j]):
+            d0 = tempfile.mkdtemp()
+            try:
+                p0 = os.path.join(d0, "w.json")
+                w0 = Wavefunction(np.array(amps, dtype=complex))
+                save_wavefunction(w0, p0)
+                try:
+                    back = load_wavefunction(p0)
+                except ValueError as e:
+                    return False, f"load_wavefunction of the saved state {amps} raised: {e}"
+                if not np.array_equal(np.asarray(back.amplitudes), np.asarray(w0.amplitudes)):
+                    return False, f"save/load changed the amplitudes {amps} into {list(back.amplitudes)}"
+                arr = np.array(amps, dtype=complex)
+                if not np.array_equal(convert_dict_to_array(json.loads(json.dumps(convert_array_to_dict(arr)))), arr):
+                    return False, f"array <-> dict conversion changed {amps}"
+            finally:
+                import shutil
+                shutil.rmtree(d0, ignore_errors=True)
     d = tempfile.mkdtemp()
     try:
         p = os.path.join(d, "w.json")
@@ -297,7 +325,7 @@ def build(tier, seed):
     obs.append(vprop.enum_ob("C12.history.enum", [C_SET.key, W + ":Wavefunction.bind"], _histories(tier), _check_history,
                              "bounded: adversarial assignment / binding histories (tolerance-sized drifts, rejected then accepted writes, numeric / symbolic / mixed): "
                              "the object stays valid for its own constructor, rejected steps change nothing", exhaustive=False))
-    obs.append(vprop.enum_ob("C12.dicke.enum", [W + ":Wavefunction.dicke_state", W + ":_most_significant_set_bit"], lambda: range(1, 9 if tier == "quick" else 12), _check_dicke,
+    obs.append(vprop.enum_ob("C12.dicke.enum", [W + ":Wavefunction.dicke_state", W + ":_most_significant_set_bit"], lambda: range(1, 17 if tier == "quick" else 21), _check_dicke,
                              "bounded: dicke_state(n,k) has equal probability on exactly the C(n,k) states of weight k; bad arguments raise"))
     obs.append(vprop.enum_ob("C12.flip.enum", [W + ":flip_amplitudes", W + ":_get_ordering", W + ":save_wavefunction", W + ":load_wavefunction"],
                              lambda: range(1, 9 if tier == "quick" else 11), _check_flip,
